@@ -51,7 +51,9 @@ func classBase(c string) string {
 }
 
 func (f *Finding) matches(prop string, r *Result) bool {
-	if f.Kind != "known" || f.Property != prop {
+	// a listed finding is identified by function, obligation class and construct; it is the same finding when the
+	// function is re-verified as a callee in the run of another property (it is then reported under its own property)
+	if f.Kind != "known" {
 		return false
 	}
 	return f.Function == r.Func && f.Class == r.Class && strings.TrimSpace(f.Construct) == strings.TrimSpace(r.Construct)
@@ -343,7 +345,7 @@ func checkCmd(args []string) {
 			if findings[i].matches(prop, r) {
 				matched = true
 				msg := fmt.Sprintf("%s %s %q: %s", r.Func, r.Class, r.Construct, findings[i].Why)
-				fmt.Printf("KNOWN-FINDING: property=%s %s\n", prop, msg)
+				fmt.Printf("KNOWN-FINDING: property=%s %s\n", findings[i].Property, msg)
 				knownMatched = append(knownMatched, r.Name)
 				break
 			}
